@@ -129,7 +129,33 @@ def hasFailList : List Step → Bool
   | s :: r => s.hasFail || hasFailList r
 end
 
-/-! ### closures written inline in conn.go / read.go (hand transcription) -/
+-- structural equality of parser programs (to compare the transcriptions below with what the translator regenerates)
+mutual
+def Step.eqv : Step → Step → Bool
+  | .int a, .int b => a == b
+  | .err, .err => true
+  | .str, .str => true
+  | .bytes, .bytes => true
+  | .discStr, .discStr => true
+  | .discBytes, .discBytes => true
+  | .disc a, .disc b => a == b
+  | .arr a, .arr b => stepsEq a b
+  | .ifGe v a, .ifGe w b => v == w && stepsEq a b
+  | .failIfErr, .failIfErr => true
+  | .expect1, .expect1 => true
+  | .hwm, .hwm => true
+  | .setSizeRead, .setSizeRead => true
+  | .setSizeCheck, .setSizeCheck => true
+  | .abortedTxs, .abortedTxs => true
+  | _, _ => false
+def stepsEq : List Step → List Step → Bool
+  | [], [] => true
+  | a :: as, b :: bs => a.eqv b && stepsEq as bs
+  | _, _ => false
+end
+
+/-! ### closures written inline in conn.go / read.go (transcription; `Props/C11.closures_regenerated` checks them against
+the programs the translator regenerates from read.go / conn.go on every run) -/
 
 /-- listoffset.go `partitionOffsetV1.readFrom` is generated; this is the closure of conn.go `readOffset`. -/
 def readOffsetClosure (partitionOffsetV1 : List Step) : List Step :=
